@@ -488,6 +488,12 @@ def jobs(tier):
     js = [Job("soc_%s" % n, build, dict(cfgname=n, K=(46 if "csr8" in n else 30)), cost=60, timeout_s=3400) for n in names]
     from vf.props import c14_mem
     js += c14_mem.jobs(tier)
+    # the CSR bridge of AXI-Lite / AXI SoCs (SoC.add_csr_bridge -> AXILite2CSR -> axi_lite_to_simple): an access made at the published address
+    # must reach that CSR word for every legal AW/W/AR schedule of the bus master (address before data, data before address) - the shadow-byte
+    # harness of C09 for this bridge is part of this property's obligations as well
+    from vf.props.c09 import build_axil2csr, build_axil_slave_proto
+    js.append(Job("csr_bridge_axilite2csr", build_axil2csr, dict(K=18 if T else 14), cost=6))
+    js.append(Job("csr_bridge_axilite2csr_free_master", build_axil_slave_proto, dict(kind="csr", K=18), cost=8))
     return js
 
 
